@@ -13,8 +13,10 @@ import (
 	"os/exec"
 	"path/filepath"
 	"sort"
+	"strconv"
 	"strings"
 	"sync"
+	"sync/atomic"
 	"syscall"
 	"time"
 )
@@ -73,6 +75,7 @@ type Result struct {
 	Stderr   string
 	TimedOut bool // wall-clock watchdog fired: inconclusive, never a verdict
 	CPU      time.Duration
+	Hung     bool // HangDetect: the process was found quiescent (see CLI.HangDetect) and was stopped with SIGQUIT
 }
 
 // CLI describes one invocation.
@@ -84,6 +87,69 @@ type CLI struct {
 	Stdin   string
 	Timeout time.Duration // watchdog (default 60s)
 	KeepEnv bool
+	// HangDetect: decide "hung" from the process state rather than from a deadline. The process group is sampled
+	// twice a second; when in 20 consecutive samples it consists of the one process alone (no children that could
+	// still finish), every thread of it sleeps and its CPU time has not moved, nothing can ever wake it: it is sent
+	// SIGQUIT (the goroutine dump lands in Stderr) and Hung is set. A process that is merely slow or starved has a
+	// runnable thread or a child and never qualifies. Only for invocations that use no timers of their own.
+	HangDetect bool
+}
+
+// groupQuiescent reports whether process group pgid is exactly the process pgid with all threads asleep; cpu is
+// the process's utime+stime in ticks.
+func groupQuiescent(pgid int) (quiet bool, cpu int64) {
+	ents, err := os.ReadDir("/proc")
+	if err != nil {
+		return false, 0
+	}
+	members := 0
+	for _, e := range ents {
+		pid, err := strconv.Atoi(e.Name())
+		if err != nil {
+			continue
+		}
+		b, err := os.ReadFile("/proc/" + e.Name() + "/stat")
+		if err != nil {
+			continue
+		}
+		// pid (comm) state ppid pgrp ...
+		k := bytes.LastIndexByte(b, ')')
+		if k < 0 {
+			continue
+		}
+		f := strings.Fields(string(b[k+1:]))
+		if len(f) < 13 {
+			continue
+		}
+		if g, _ := strconv.Atoi(f[2]); g != pgid {
+			continue
+		}
+		members++
+		if pid != pgid {
+			return false, 0
+		}
+		ut, _ := strconv.ParseInt(f[11], 10, 64)
+		st, _ := strconv.ParseInt(f[12], 10, 64)
+		cpu = ut + st
+	}
+	if members != 1 {
+		return false, 0
+	}
+	tasks, err := os.ReadDir(fmt.Sprintf("/proc/%d/task", pgid))
+	if err != nil || len(tasks) == 0 {
+		return false, 0
+	}
+	for _, t := range tasks {
+		b, err := os.ReadFile(fmt.Sprintf("/proc/%d/task/%s/stat", pgid, t.Name()))
+		if err != nil {
+			return false, 0
+		}
+		k := bytes.LastIndexByte(b, ')')
+		if k < 0 || k+2 >= len(b) || b[k+2] != 'S' {
+			return false, 0
+		}
+	}
+	return true, cpu
 }
 
 // BaseEnv is the minimal, controlled environment given to the CLI.
@@ -118,8 +184,43 @@ func (c CLI) Run() Result {
 	// generous: on a loaded machine the goroutines copying the pipes can be starved for seconds, and a
 	// short delay would cut the captured output off (seen as exit 0 with empty stdout/stderr).
 	cmd.WaitDelay = 60 * time.Second
-	err := cmd.Run()
-	r := Result{Stdout: so.String(), Stderr: se.String()}
+	var hung atomic.Bool
+	err := cmd.Start()
+	if err == nil {
+		stop := make(chan struct{})
+		if c.HangDetect {
+			go func() {
+				streak, last := 0, int64(-1)
+				for {
+					select {
+					case <-stop:
+						return
+					case <-time.After(500 * time.Millisecond):
+					}
+					q, cpu := groupQuiescent(cmd.Process.Pid)
+					if q && cpu == last {
+						streak++
+					} else {
+						streak = 0
+					}
+					last = cpu
+					if streak >= 20 {
+						hung.Store(true)
+						syscall.Kill(cmd.Process.Pid, syscall.SIGQUIT)
+						select {
+						case <-stop:
+						case <-time.After(10 * time.Second):
+							syscall.Kill(-cmd.Process.Pid, syscall.SIGKILL)
+						}
+						return
+					}
+				}
+			}()
+		}
+		err = cmd.Wait()
+		close(stop)
+	}
+	r := Result{Stdout: so.String(), Stderr: se.String(), Hung: hung.Load()}
 	if errors.Is(err, exec.ErrWaitDelay) {
 		r.TimedOut = true // output may be incomplete: inconclusive, never a verdict
 	}
